@@ -103,6 +103,11 @@ fn cmd_lexlines(args: &[&str]) -> String {
             }
         }
     }
+    out.push_str("fin");
+    if let Some(t) = lex.finish() {
+        out.push(' ');
+        out.push_str(&fmt_tok(&t));
+    }
     out
 }
 
@@ -141,6 +146,18 @@ fn cmd_parse(args: &[&str]) -> String {
         for s in parse.get_results() {
             trees.push(syn::fmt_stmt(&s));
         }
+    }
+    if let Some(tok) = lex.finish() {
+        if parse.feed(&tok).is_err() {
+            return format!(
+                "parseerr {} {} {} {}",
+                ntok,
+                tok.loc().line(),
+                tok.loc().col(),
+                trees.join(" ")
+            );
+        }
+        ntok += 1;
     }
     if parse.feed(&EOF).is_err() {
         return format!(
